@@ -972,6 +972,7 @@ Definition check (c : sexp) : sexp :=
                                             then ["no-variable-values-but-variables-declared"] else [])
                                   | _ => []
                                   end)
+                              ++ (match field1 "history" l with Some (SSym _) => ["ws-history-subscription-then-start"] | _ => [] end)
                               ++ (match field1 "schemamode" l with
                                   | Some m => if is_sym "cloned" m
                                               then ["schema-built-from-clone"] else []
